@@ -459,16 +459,12 @@ package util
 // handed to it must be canonical (C02) and carry hex paths. Body: see C14.
 //@ func (*MerklePatriciaTrie).insertNode returns (n, key, err)
 //@   trusted
-//@   props C16
-//@   opt bodyfor C16
 //@   holds mpt.mutex W
 //@   requires newNode != nil && Canon(newNode) && PathsWF(newNode)                          #canonical-node
 //@   assigns heap(OriginTracker.Origin), heap(OriginTracker.Version)
 //@   ensures err == nil ==> n == newNode && key != nil && len(key) == 32 && ((newNode is *FullNode) == KeyIsFull(key))
 //@ func (*MerklePatriciaTrie).deleteNode returns (err)
 //@   trusted
-//@   props C16
-//@   opt bodyfor C16
 //@   holds mpt.mutex W
 //@   requires node != nil
 //@   assigns nothing
@@ -646,9 +642,6 @@ package util
 //@ func (*MerklePatriciaTrie).GetAllMissingNodes returns (keys, err)
 //@   props C16
 //@   mode wrap
-//@ func (*MerklePatriciaTrie).pp2 returns (err)
-//@   props C16
-//@   mode wrap
 //@ func (*MerklePatriciaTrie).Validate returns (err)
 //@   props C16
 //@   mode wrap
@@ -696,3 +689,17 @@ package util
 //@ func (Node).CloneNode returns (c)
 //@   assigns nothing
 //@   ensures c != nil
+//@ func (Node).SetOrigin
+//@   assigns heap(OriginTracker.Origin), heap(OriginTracker.Version)
+//@ func (Node).GetOrigin returns (o)
+//@   assigns nothing
+//@ func (Node).GetVersion returns (o)
+//@   assigns nothing
+//@ func (OriginTrackerI).SetOrigin
+//@   assigns heap(OriginTracker.Origin), heap(OriginTracker.Version)
+//@ func (OriginTrackerI).SetVersion
+//@   assigns heap(OriginTracker.Version)
+//@ func (OriginTrackerI).GetOrigin returns (o)
+//@   assigns nothing
+//@ func (OriginTrackerI).GetVersion returns (o)
+//@   assigns nothing
